@@ -19,7 +19,13 @@ C13_TN(int8_t) C13_TN(uint8_t) C13_TN(int16_t) C13_TN(uint16_t) C13_TN(int32_t) 
 #undef C13_TN
 
 // 2^k-1, 2^k, 2^k+1 for the exponents in `ks` (all exponents up to the width when `ks` is empty), their
-// negatives for signed types, 0 and the four values at the limits; 8-bit types: every value
+// negatives for signed types, 0 and the four values at the limits
+template <class T>
+std::vector<T> all_values() {  // 8-bit types
+  std::vector<T> out;
+  for (int v = (int)std::numeric_limits<T>::min(); v <= (int)std::numeric_limits<T>::max(); v++) out.push_back((T)v);
+  return out;
+}
 template <class T>
 std::vector<T> boundary_alphabet(const std::vector<int>& ks = {}) {
   std::vector<T> out;
@@ -33,10 +39,6 @@ std::vector<T> boundary_alphabet(const std::vector<int>& ks = {}) {
     return out;
   } else {
     using L = std::numeric_limits<T>;
-    if (sizeof(T) == 1) {
-      for (int v = (int)L::min(); v <= (int)L::max(); v++) out.push_back((T)v);
-      return out;
-    }
     const int W = (int)(sizeof(T) * 8);
     std::vector<__int128> raw = {0, (__int128)L::min(), (__int128)L::min() + 1, (__int128)L::max() - 1, (__int128)L::max()};
     std::vector<int> k2 = ks;
@@ -134,9 +136,11 @@ struct PairRunner {
 
   void run(const std::vector<C>& alpha, int orders) {
     r.note(std::string("pairs ") + PT<Pt>::name() + "<" + tname<C>() + ">");
+    // orders == 0: one insertion order per pair, forward or reverse by the parity of i + j (quick tier, wide alphabets)
     for (size_t i = 0; i < alpha.size(); i++)
       for (size_t j = 0; j < alpha.size(); j++)
-        for (int o = 0; o < orders; o++) {
+        for (int oo = 0; oo < (orders ? orders : 1); oo++) {
+          int o = orders ? oo : (int)((i + j) & 1);
           if (!r.take()) continue;
           if (r.wants_desc()) r.desc(std::string(PT<Pt>::name()) + "<" + tname<C>() + vf::fmt("> a=%s b=%s insertion order %d", show_c(alpha[i]).c_str(), show_c(alpha[j]).c_str(), o));
           run_case(alpha[i], alpha[j], o);
@@ -144,7 +148,7 @@ struct PairRunner {
           r.ok(std::string(PT<Pt>::name()) + "<" + tname<C>() + ">");
         }
     r.counters["observer_calls_compared"] += ck.calls;
-    r.counters[std::string("alphabet_") + PT<Pt>::name() + "_" + tname<C>()] = alpha.size();
+    if (r.shard == 0) r.counters[std::string("alphabet_") + PT<Pt>::name() + "_" + tname<C>()] = alpha.size();  // counters are summed over shards
   }
 };
 
@@ -152,7 +156,8 @@ template <class Pt>
 void run_pairs(vf::Run& r, const std::vector<typename PT<Pt>::C>& alpha, int orders, std::string& bound) {
   PairRunner<Pt> p(r);
   p.run(alpha, orders);
-  bound += vf::fmt("%s%s<%s>: %zu^2 pairs x %d orders", bound.empty() ? "" : "; ", PT<Pt>::name(), tname<typename PT<Pt>::C>(), alpha.size(), orders);
+  bound += vf::fmt("%s%s<%s>: %zu^2 pairs x %s", bound.empty() ? "" : "; ", PT<Pt>::name(), tname<typename PT<Pt>::C>(), alpha.size(),
+      orders ? vf::fmt("%d insertion orders", orders).c_str() : "1 insertion order (forward / reverse alternating with the parity of the pair)");
 }
 
 }  // namespace c13
